@@ -168,6 +168,54 @@ def collect_cases(jobs, results):
     return cases, cnt
 
 
+def file_level_cases(files, argvs, first_id):
+    """the real command line on whole files: every block of the emitted file against the block at the same position of
+    the input file (read with the json module only).  Returns (cases, counters)."""
+    import json
+    import os
+    import subprocess
+    cases, cnt = [], {"files": 0, "file_runs_failed": 0, "file_blocks": 0, "file_changed": 0, "file_misaligned": 0}
+    for f in files:
+        for argv in argvs:
+            d = os.path.join(common.workdir(), "cli_%d" % (len(cases) + cnt["files"] + cnt["file_runs_failed"]))
+            os.makedirs(d, exist_ok=True)
+            try:
+                subprocess.run([common.VENV_PY, os.path.join(common.VERIF, "harness", "cli_run.py"), common.REPO, f] + argv, cwd=d,
+                               stdout=subprocess.DEVNULL, stderr=subprocess.DEVNULL, timeout=900)
+            except subprocess.TimeoutExpired:
+                cnt["file_runs_failed"] += 1
+                continue
+            out = os.path.join(d, os.path.basename(f).split(".")[0] + "_optimized.json_solc")
+            if not os.path.exists(out):
+                cnt["file_runs_failed"] += 1
+                continue
+            cnt["files"] += 1
+            din, dout = json.load(open(f)), json.load(open(out))
+            for cname, c in din["contracts"].items():
+                a_in = (c or {}).get("asm")
+                a_out = (dout.get("contracts", {}).get(cname) or {}).get("asm")
+                if not a_in or not a_out:
+                    continue
+                secs_out = dict(corpus.code_sections(a_out))
+                for path, items in corpus.code_sections(a_in):
+                    bi, bo = corpus.split_blocks(items), corpus.split_blocks(secs_out.get(path, []))
+                    if len(bi) != len(bo):
+                        cnt["file_misaligned"] += 1        # a skeleton matter (C09); nothing to compare block by block
+                        continue
+                    for x, y in zip(bi, bo):
+                        cnt["file_blocks"] += 1
+                        ix, iy = [equiv.item_to_instr(i) for i in x], [equiv.item_to_instr(i) for i in y]
+                        for i in ix + iy:
+                            if i["op"] == "PUSH" and not i["w"]:
+                                i["op"] = "PUSH0"          # the two spellings of a zero push
+                        if instr_key(ix) == instr_key(iy):
+                            continue
+                        cnt["file_changed"] += 1
+                        cases.append({"id": first_id + len(cases), "orig": ix, "opt": iy, "plain": "", "opts": ["file:" + " ".join(argv)],
+                                      "src": os.path.basename(f)[:14] + ":" + cname.split(":")[-1] + ":" + path})
+    return cases, cnt
+
+
 def plain_of(instrs):
     return " ".join((i["name"] + (" " + i["value"] if i["value"] != "" and "JUMP" not in i["name"] else "")) for i in instrs)
 
@@ -181,6 +229,17 @@ def run(tier):
     results = pool.run_matrix([(argv, cmds) for _, argv, cmds in jobs], timeout=20)
     t_drive = time.time() - t0
     cases, cnt = collect_cases(jobs, results)
+    # whole files through the real command line (the emitted file is the observation point)
+    files = sorted(corpus.example_files(), key=lambda f: __import__("os").path.getsize(f))
+    fsel = files[:1] + files[3:4] if tier == "quick" else files[:6]
+    fargv = [["-greedy"]] if tier == "quick" else [["-greedy"], ["-greedy", "-storage", "-size"], ["-greedy", "-partition", "-push0"]]
+    fcases, fcnt = file_level_cases(fsel, fargv, len(cases) + 1)
+    have = {(instr_key(c["orig"]), instr_key(c["opt"])) for c in cases}
+    for c in fcases:
+        if (instr_key(c["orig"]), instr_key(c["opt"])) not in have:
+            c["id"] = len(cases) + 1
+            cases.append(c)
+    cnt.update(fcnt)
     verdicts, st = equiv.run_equiv(cases, cap)
     viol, undec = [], 0
     for c in cases:
